@@ -227,7 +227,7 @@ fn prop_random(t: &mut Tape, st: &mut Stats) -> Result<(), Failure> {
 
 pub fn run(args: Args) -> ! {
     let mut rep = Report::new("C10", args.tier, args.seed);
-    rep.rule = "exhaustive: every string of length <= L over a 14-class alphabet (\" ' \\ LF CR TAB space NUL ESC DEL # a é 😀), L=5 quick / 6 thorough, each pushed through all 7 value styles and 5 key styles (alone, in `k = tok`, array, inline table, header, dotted position; library and reference decoder); plus runs of each alphabet character of 30 lengths up to 1025 around the powers of two (alone, with a prefix, a suffix, a newline or quotes around), plus proptest-driven random long strings with quote runs. non-trivial = contains a quote, apostrophe, backslash, newline or control character; distinct by string".into();
+    rep.rule = "exhaustive: every string of length <= L over a 14-class alphabet (\" ' \\ LF CR TAB space NUL ESC DEL # a é 😀), L=5 quick / 6 thorough, each pushed through all 7 value styles and 5 key styles (alone, in `k = tok`, array, inline table, header, dotted position; library and reference decoder); plus every code point below U+3000, the plane / encoding boundaries and a stride of 251 through the rest (all 1,112,064 in the thorough tier) alone and in five small contexts, plus runs of each alphabet character of 30 lengths up to 1025 around the powers of two (alone, with a prefix, a suffix, a newline or quotes around), plus proptest-driven random long strings with quote runs. non-trivial = contains a quote, apostrophe, backslash, newline or control character; distinct by string".into();
     rep.assumptions = vec![
         "the reference decoder (tomlref), calibrated on the 562 toml-test 1.0.0 fixtures".into(),
     ];
@@ -269,6 +269,34 @@ pub fn run(args: Args) -> ! {
             break;
         }
     }
+    // every character on its own: the alphabet has one representative per class of the grammar, and
+    // a writer can get a single member of a class wrong (every code point below U+3000, the
+    // boundaries of the planes and encodings, and a stride through the rest; all of them in the
+    // thorough tier)
+    if rep.violations.is_empty() {
+        let all = args.tier == Tier::Thorough;
+        let mut cps: Vec<char> = vec![];
+        for cp in 0u32..=0x10FFFF {
+            let near_edge = [0x7Fu32, 0x80, 0x7FF, 0x800, 0xD7FF, 0xE000, 0xFEFF, 0xFFFD, 0xFFFE, 0xFFFF, 0x10000, 0x1FFFF, 0x10FFFF].iter().any(|e| cp.abs_diff(*e) <= 2);
+            if all || cp < 0x3000 || near_edge || cp % 251 == 0 {
+                if let Some(c) = char::from_u32(cp) {
+                    cps.push(c);
+                }
+            }
+        }
+        let (st, fail) = par_enumerate(cps.len() as u64, workers(), |i, st| {
+            let c = cps[i as usize];
+            st.class("single-code-point");
+            for s in [c.to_string(), format!("a{c}"), format!("{c}a"), format!("{c}{c}"), format!("\"{c}'"), format!("{c}\n{c}")] {
+                check_string(&s, st)?;
+            }
+            Ok(())
+        });
+        rep.stats.merge(st);
+        if let Some((_, f)) = fail {
+            rep.violation("code-points", None, &f);
+        }
+    }
     // long runs of one character, at the lengths where a narrow counter would wrap or saturate
     if rep.violations.is_empty() {
         const LENS: [usize; 30] = [3, 4, 5, 6, 7, 8, 9, 15, 16, 17, 31, 32, 33, 63, 64, 65, 127, 128, 129, 254, 255, 256, 257, 258, 511, 512, 513, 1023, 1024, 1025];
@@ -299,7 +327,7 @@ pub fn run(args: Args) -> ! {
         let run = run_tape("C10.random", &prop_random, 200, cases, args.seed, workers());
         rep.absorb("random", run);
     }
-    for c in ["value.literal.offered", "value.ml_literal.offered", "value.basic_pretty.offered", "value.ml_basic_pretty.offered", "value.literal.refused", "value.ml_literal.refused", "key.unquoted.offered", "key.literal.offered", "key.literal.refused", "random.long", "runs"] {
+    for c in ["value.literal.offered", "value.ml_literal.offered", "value.basic_pretty.offered", "value.ml_basic_pretty.offered", "value.literal.refused", "value.ml_literal.refused", "key.unquoted.offered", "key.literal.offered", "key.literal.refused", "random.long", "runs", "single-code-point"] {
         rep.require_class(c);
     }
     rep.finish()
